@@ -2,18 +2,116 @@
 //! reciprocal edges, self-loops and remove-then-re-add are dense), `Directed` and `Undirected`, each
 //! history executed under three hashers (`RandomState`, `fxhash`, `ahash`) with identical observations
 //! required.  After every mutating call a `dump` (full observation through the public API).
+//!
+//! Wave 6 (corners of the public API):
+//! * the executor is generic over the node type and the edge weight type (`Nd`, `Wt`); besides the three
+//!   hashers every history runs under one more instantiation (`i64` nodes below zero with `f32` weights,
+//!   `graphmap::Ptr` nodes — compared by address, all pointing to EQUAL values — with `Box<u32>` weights,
+//!   `(u8, i8)` tuple nodes with `u64` weights and a fixed-key SipHash): identical observations required
+//!   (`instances => same`);
+//! * `law …` lines (c03_laws.rs): everything of the public surface of graphmap.rs / data.rs that the
+//!   protocol does not address call by call is checked against calls that ARE judged by the model.
 use crate::common::*;
 use crate::rng::Rng;
 use petgraph::data::{Build, Create, Element, FromElements};
 use petgraph::graph::Graph;
-use petgraph::graphmap::GraphMap;
+use petgraph::graphmap::{GraphMap, Ptr};
 use petgraph::visit::{
     EdgeIndexable, EdgeRef, GetAdjacencyMatrix, IntoEdgeReferences, IntoNodeIdentifiers,
     IntoNodeReferences, NodeIndexable, NodeRef,
 };
 use petgraph::{Directed, Direction, EdgeType, Undirected};
 use std::collections::{BTreeMap, BTreeSet};
-use std::hash::BuildHasher;
+use std::fmt::Debug;
+use std::hash::{BuildHasher, Hash};
+
+#[path = "c03_laws.rs"]
+mod laws;
+#[path = "c03_par.rs"]
+mod par;
+
+/// a node type of the instantiation under test; `enc` is strictly monotone (the canonical orientation of an
+/// undirected edge follows `Ord`), so every observation decodes to the one of the `u32` run
+pub trait Nd: Copy + Ord + Hash + Debug {
+    fn enc(x: u32) -> Self;
+    fn dec(self) -> u32;
+}
+impl Nd for u32 {
+    fn enc(x: u32) -> u32 {
+        x
+    }
+    fn dec(self) -> u32 {
+        self
+    }
+}
+/// negative node values
+impl Nd for i64 {
+    fn enc(x: u32) -> i64 {
+        x as i64 - 3
+    }
+    fn dec(self) -> u32 {
+        (self + 3) as u32
+    }
+}
+impl Nd for (u8, i8) {
+    fn enc(x: u32) -> (u8, i8) {
+        ((x / 3) as u8, (x % 3) as i8 - 1)
+    }
+    fn dec(self) -> u32 {
+        self.0 as u32 * 3 + (self.1 + 1) as u32
+    }
+}
+thread_local! {
+    /// arena of EQUAL values: `Ptr` must tell them apart by address (ascending with the index)
+    static ARENA: &'static [u32] = Box::leak(vec![7u32; 64].into_boxed_slice());
+}
+impl Nd for Ptr<'static, u32> {
+    fn enc(x: u32) -> Self {
+        ARENA.with(|a| Ptr(&a[x as usize]))
+    }
+    fn dec(self) -> u32 {
+        ARENA.with(|a| ((self.0 as *const u32 as usize - a.as_ptr() as usize) / std::mem::size_of::<u32>()) as u32)
+    }
+}
+
+/// an edge weight type of the instantiation under test
+pub trait Wt: Clone + Debug {
+    fn enc(x: u32) -> Self;
+    fn dec(&self) -> u32;
+}
+impl Wt for u32 {
+    fn enc(x: u32) -> u32 {
+        x
+    }
+    fn dec(&self) -> u32 {
+        *self
+    }
+}
+impl Wt for u64 {
+    fn enc(x: u32) -> u64 {
+        x as u64 + (1 << 40)
+    }
+    fn dec(&self) -> u32 {
+        (*self - (1 << 40)) as u32
+    }
+}
+impl Wt for f32 {
+    fn enc(x: u32) -> f32 {
+        x as f32
+    }
+    fn dec(&self) -> u32 {
+        *self as u32
+    }
+}
+/// not `Copy`
+impl Wt for Box<u32> {
+    fn enc(x: u32) -> Self {
+        Box::new(x)
+    }
+    fn dec(&self) -> u32 {
+        **self
+    }
+}
 
 type Tri = (u32, u32, u32);
 
@@ -35,6 +133,11 @@ enum Op {
     FromGraph(Vec<u32>, Vec<(usize, usize, u32)>),
     FromEdges(Vec<Tri>),
     FromElements(Vec<u32>, Vec<(usize, usize, u32)>),
+    /// `from_elements` on an arbitrary element sequence with distinct node weights: edges between the node
+    /// elements, possibly naming a position that has not appeared yet (a documented-by-construction panic)
+    FromElems(Vec<Elem>),
+    /// the `law …` lines (c03_laws.rs) in the current state
+    Laws(u64),
     BumpRev(u32),
     CloneSelf,
     ContainsNode(u32),
@@ -56,6 +159,12 @@ enum Op {
     EdgeFromIndex(usize),
     IntoGraph,
     Dump,
+}
+
+#[derive(Clone, Debug)]
+pub enum Elem {
+    Node(u32),
+    Edge(usize, usize, u32),
 }
 
 fn tri(l: &[Tri]) -> String {
@@ -173,7 +282,7 @@ fn gen_history(rng: &mut Rng, directed: bool, k: u32, thorough: bool) -> Vec<Op>
         }
         _ => {}
     }
-    let nops = 8 + rng.below(if thorough { 220 } else { 110 });
+    let nops = 8 + rng.below(if k > 7 { 70 } else if thorough { 220 } else { 110 });
     // phases: grow, churn, shrink (the weights of the mutating ops change)
     for i in 0..nops {
         let phase = (3 * i) / nops;
@@ -267,6 +376,7 @@ fn gen_history(rng: &mut Rng, directed: bool, k: u32, thorough: bool) -> Vec<Op>
             11 => ops.push(Op::RoundTrip),
             12 => ops.push(Op::CloneSelf),
             13 => {
+                let before = (sh.nodes.clone(), sh.edges.clone());
                 let (ws, es) = graph_input(rng);
                 sh.clear();
                 for w in &ws {
@@ -275,7 +385,51 @@ fn gen_history(rng: &mut Rng, directed: bool, k: u32, thorough: bool) -> Vec<Op>
                 for e in &es {
                     sh.add_edge(ws[e.0], ws[e.1]);
                 }
-                if rng.chance(35) {
+                if rng.chance(30) {
+                    // an interleaved element sequence over distinct node weights; 30 % of them name a position
+                    // that does not exist (yet): the call panics and the graph stays what it was
+                    let mut all: Vec<u32> = (0..k).collect();
+                    rng.shuffle(&mut all);
+                    let cnt = rng.below(k as usize + 1);
+                    let bad = rng.chance(30);
+                    let mut el: Vec<Elem> = Vec::new();
+                    let mut ok = true;
+                    let mut seen: Vec<u32> = Vec::new();
+                    let mut staged: Vec<(u32, u32)> = Vec::new();
+                    for w in all.into_iter().take(cnt) {
+                        el.push(Elem::Node(w));
+                        seen.push(w);
+                        for _ in 0..rng.below(4) {
+                            let hi = seen.len() + if bad && rng.chance(25) { 2 } else { 0 };
+                            let i = rng.below(hi);
+                            let j = if rng.chance(15) { i } else { rng.below(hi) };
+                            el.push(Elem::Edge(i, j, rng.below(90) as u32));
+                            if i < seen.len() && j < seen.len() {
+                                staged.push((seen[i], seen[j]));
+                            } else {
+                                ok = false;
+                            }
+                        }
+                    }
+                    if cnt == 0 && bad {
+                        el.push(Elem::Edge(0, 0, 1));
+                        ok = false;
+                    }
+                    // (the shadow was replaced above for the from_graph input: redo it for this call)
+                    sh.clear();
+                    if ok {
+                        for w in &seen {
+                            sh.nodes.insert(*w);
+                        }
+                        for (a, b) in &staged {
+                            sh.add_edge(*a, *b);
+                        }
+                    } else {
+                        sh.nodes = before.0.clone();
+                        sh.edges = before.1.clone();
+                    }
+                    ops.push(Op::FromElems(el));
+                } else if rng.chance(35) {
                     // FromElements needs distinct node weights (it addresses nodes by position)
                     let mut seen = std::collections::BTreeSet::new();
                     if ws.iter().all(|w| seen.insert(*w)) {
@@ -331,9 +485,13 @@ fn gen_history(rng: &mut Rng, directed: bool, k: u32, thorough: bool) -> Vec<Op>
             if rng.chance(30) {
                 ops.push(Op::IntoGraph);
             }
+            if rng.chance(8) {
+                ops.push(Op::Laws(rng.next()));
+            }
         }
     }
     ops.push(Op::Dump);
+    ops.push(Op::Laws(rng.next()));
     ops.push(Op::IntoGraph);
     ops
 }
@@ -342,25 +500,29 @@ fn or_panic(x: Option<String>) -> String {
     x.unwrap_or_else(|| "panic".into())
 }
 
-fn dump<Ty: EdgeType, S: BuildHasher>(g: &GraphMap<u32, u32, Ty, S>, k: u32) -> String {
+fn t3<N: Nd, W: Wt>(e: (N, N, &W)) -> String {
+    format!("{}:{}:{}", e.0.dec(), e.1.dec(), e.2.dec())
+}
+
+pub fn dump<N: Nd, W: Wt, Ty: EdgeType, S: BuildHasher>(g: &GraphMap<N, W, Ty, S>, k: u32) -> String {
     let mut out = String::new();
-    let nodes: Vec<u32> = g.nodes().collect();
-    let edges: Vec<Tri> = g.all_edges().map(|(a, b, w)| (a, b, *w)).collect();
+    let nodes: Vec<N> = g.nodes().collect();
+    let edges: Vec<(N, N)> = g.all_edges().map(|(a, b, _)| (a, b)).collect();
     let nc = g.node_count();
     let ec = g.edge_count();
     out += &format!("nc={} ec={} nb={} eb={}", nc, ec, g.node_bound(), g.edge_bound());
-    out += &format!(" nodes={}", list(nodes.iter()));
-    out += &format!(" ids={}", list(g.node_identifiers()));
+    out += &format!(" nodes={}", list(nodes.iter().map(|n| n.dec())));
+    out += &format!(" ids={}", list(g.node_identifiers().map(|n| n.dec())));
     out += &format!(
         " refs={}",
-        list(g.node_references().map(|r| if r.id() == *r.weight() { r.id().to_string() } else { "idweight".into() }))
+        list(g.node_references().map(|r| if r.id() == *r.weight() { r.id().dec().to_string() } else { "idweight".into() }))
     );
-    out += &format!(" edges={}", tri(&edges));
+    out += &format!(" edges={}", list(g.all_edges().map(t3)));
     out += &format!(
         " erefs={}",
         list(g.edge_references().map(|e| {
             if e.id() == (e.source(), e.target()) {
-                format!("{}:{}:{}", e.source(), e.target(), e.weight())
+                format!("{}:{}:{}", e.source().dec(), e.target().dec(), e.weight().dec())
             } else {
                 "idmismatch".into()
             }
@@ -372,7 +534,7 @@ fn dump<Ty: EdgeType, S: BuildHasher>(g: &GraphMap<u32, u32, Ty, S>, k: u32) -> 
     );
     out += &format!(
         " nf={}",
-        list((0..nc).map(|i| or_panic(catch(|| NodeIndexable::from_index(g, i).to_string()))))
+        list((0..nc).map(|i| or_panic(catch(|| NodeIndexable::from_index(g, i).dec().to_string()))))
     );
     out += &format!(
         " ei={}",
@@ -383,65 +545,70 @@ fn dump<Ty: EdgeType, S: BuildHasher>(g: &GraphMap<u32, u32, Ty, S>, k: u32) -> 
         list((0..ec).map(|i| {
             or_panic(catch(|| {
                 let (a, b) = EdgeIndexable::from_index(g, i);
-                format!("{}:{}", a, b)
+                format!("{}:{}", a.dec(), b.dec())
             }))
         }))
     );
     // the iterators' own `rev`/`len`/`count`/`last`/`nth` implementations
     out += &format!(" dir={}", if g.is_directed() { 1 } else { 0 });
-    out += &format!(" rnodes={}", list(g.nodes().rev()));
+    out += &format!(" rnodes={}", list(g.nodes().rev().map(|n| n.dec())));
     out += &format!(" nlen={}", g.nodes().len());
-    out += &format!(" redges={}", list(g.all_edges().rev().map(|(a, b, w)| format!("{}:{}:{}", a, b, w))));
+    out += &format!(" redges={}", list(g.all_edges().rev().map(t3)));
     out += &format!(" ecnt={}", g.all_edges().count());
-    let t3 = |x: Option<(u32, u32, &u32)>| match x {
-        Some((a, b, w)) => format!("{}:{}:{}", a, b, w),
+    let o3 = |x: Option<(N, N, &W)>| match x {
+        Some(e) => t3(e),
         None => "none".to_string(),
     };
-    out += &format!(" elast={}", t3(g.all_edges().last()));
-    out += &format!(" enth={}", t3(g.all_edges().nth(ec / 2)));
+    out += &format!(" elast={}", o3(g.all_edges().last()));
+    out += &format!(" enth={}", o3(g.all_edges().nth(ec / 2)));
     for v in 0..k {
-        out += &format!(" | {} c={}", v, if g.contains_node(v) { 1 } else { 0 });
-        out += &format!(" N={}", or_panic(catch(|| list(g.neighbors(v)))));
-        out += &format!(" NO={}", or_panic(catch(|| list(g.neighbors_directed(v, Direction::Outgoing)))));
-        out += &format!(" NI={}", or_panic(catch(|| list(g.neighbors_directed(v, Direction::Incoming)))));
-        let e3 = |it: &mut dyn Iterator<Item = (u32, u32, &u32)>| -> String {
-            list(it.map(|(a, b, w)| format!("{}:{}:{}", a, b, w)))
-        };
-        out += &format!(" E={}", or_panic(catch(|| e3(&mut g.edges(v)))));
-        out += &format!(" EO={}", or_panic(catch(|| e3(&mut g.edges_directed(v, Direction::Outgoing)))));
-        out += &format!(" EI={}", or_panic(catch(|| e3(&mut g.edges_directed(v, Direction::Incoming)))));
+        let vn = N::enc(v);
+        out += &format!(" | {} c={}", v, if g.contains_node(vn) { 1 } else { 0 });
+        out += &format!(" N={}", or_panic(catch(|| list(g.neighbors(vn).map(|n| n.dec())))));
+        out += &format!(" NO={}", or_panic(catch(|| list(g.neighbors_directed(vn, Direction::Outgoing).map(|n| n.dec())))));
+        out += &format!(" NI={}", or_panic(catch(|| list(g.neighbors_directed(vn, Direction::Incoming).map(|n| n.dec())))));
+        out += &format!(" E={}", or_panic(catch(|| list(g.edges(vn).map(t3)))));
+        out += &format!(" EO={}", or_panic(catch(|| list(g.edges_directed(vn, Direction::Outgoing).map(t3)))));
+        out += &format!(" EI={}", or_panic(catch(|| list(g.edges_directed(vn, Direction::Incoming).map(t3)))));
         out += &format!(
             " W={}",
-            list((0..k).map(|b| match g.edge_weight(v, b) {
-                Some(w) => w.to_string(),
+            list((0..k).map(|b| match g.edge_weight(vn, N::enc(b)) {
+                Some(w) => w.dec().to_string(),
                 None => "x".into(),
             }))
         );
         out += " A=";
         for b in 0..k {
-            out += if g.contains_edge(v, b) { "1" } else { "0" };
+            out += if g.contains_edge(vn, N::enc(b)) { "1" } else { "0" };
         }
     }
     out
 }
 
-fn into_graph_str<Ty: EdgeType + Clone, S: BuildHasher + Clone>(g: &GraphMap<u32, u32, Ty, S>) -> String {
+pub fn graph_str<N: Nd, W: Wt, Ty: EdgeType, Ix: petgraph::graph::IndexType>(gr: &Graph<N, W, Ty, Ix>) -> String {
+    let ws = list(gr.node_weights().map(|n| n.dec()));
+    let es = list(gr.edge_indices().map(|e| {
+        let (a, b) = gr.edge_endpoints(e).unwrap();
+        format!("{}:{}:{}", a.index(), b.index(), gr[e].dec())
+    }));
+    format!("ws={} es={}", ws, es)
+}
+
+fn into_graph_str<N: Nd, W: Wt, Ty: EdgeType + Clone, S: BuildHasher + Clone>(g: &GraphMap<N, W, Ty, S>) -> String {
     or_panic(catch(|| {
-        let gr: Graph<u32, u32, Ty, u32> = g.clone().into_graph();
-        let ws = list(gr.node_weights());
-        let es = list(gr.edge_indices().map(|e| {
-            let (a, b) = gr.edge_endpoints(e).unwrap();
-            format!("{}:{}:{}", a.index(), b.index(), gr[e])
-        }));
-        format!("ws={} es={}", ws, es)
+        let gr: Graph<N, W, Ty, u32> = g.clone().into_graph();
+        graph_str(&gr)
     }))
 }
 
-fn build_graph<Ty: EdgeType>(ws: &[u32], es: &[(usize, usize, u32)]) -> Graph<u32, u32, Ty, u32> {
-    let mut gr: Graph<u32, u32, Ty, u32> = Graph::with_capacity(0, 0);
-    let ix: Vec<_> = ws.iter().map(|w| gr.add_node(*w)).collect();
+pub fn build_graph<N: Nd, W: Wt, Ty: EdgeType, Ix: petgraph::graph::IndexType>(
+    ws: &[u32],
+    es: &[(usize, usize, u32)],
+) -> Graph<N, W, Ty, Ix> {
+    let mut gr: Graph<N, W, Ty, Ix> = Graph::with_capacity(0, 0);
+    let ix: Vec<_> = ws.iter().map(|w| gr.add_node(N::enc(*w))).collect();
     for (i, j, w) in es {
-        gr.add_edge(ix[*i], ix[*j], *w);
+        gr.add_edge(ix[*i], ix[*j], W::enc(*w));
     }
     gr
 }
@@ -453,50 +620,71 @@ fn opt_u(x: Option<u32>) -> String {
     }
 }
 
+fn elems_str(el: &[Elem]) -> String {
+    list(el.iter().map(|e| match e {
+        Elem::Node(w) => format!("n{}", w),
+        Elem::Edge(i, j, w) => format!("e{}:{}:{}", i, j, w),
+    }))
+}
+
+type LawFn<'a, N, W, Ty, S> = &'a dyn Fn(&GraphMap<N, W, Ty, S>, u32, u64) -> Vec<(String, String)>;
+
 /// execute one history on the real `GraphMap`; returns the protocol lines (request, answer)
-fn exec<Ty: EdgeType + Clone, S: BuildHasher + Default + Clone>(ops: &[Op], k: u32) -> Vec<(String, String)> {
-    let mut g: GraphMap<u32, u32, Ty, S> = GraphMap::new();
+fn exec<N: Nd, W: Wt, Ty: EdgeType + Clone, S: BuildHasher + Default + Clone>(
+    ops: &[Op],
+    k: u32,
+    lawfn: LawFn<N, W, Ty, S>,
+) -> Vec<(String, String)> {
+    let mut g: GraphMap<N, W, Ty, S> = GraphMap::new();
     let mut lines: Vec<(String, String)> = Vec::new();
+    let n = |x: &u32| N::enc(*x);
+    let tri_n = |es: &[Tri]| -> Vec<(N, N, W)> { es.iter().map(|(a, b, w)| (N::enc(*a), N::enc(*b), W::enc(*w))).collect() };
     for op in ops {
         let (req, ans): (String, String) = match op {
-            Op::Init(kind, n, e) => {
+            Op::Init(kind, nn, e) => {
                 g = match kind {
                     0 => GraphMap::new(),
                     1 => GraphMap::default(),
-                    2 => GraphMap::with_capacity(*n, *e),
-                    3 => <GraphMap<u32, u32, Ty, S> as Create>::with_capacity(*n, *e),
-                    _ => GraphMap::with_capacity_and_hasher(*n, *e, S::default()),
+                    2 => GraphMap::with_capacity(*nn, *e),
+                    3 => <GraphMap<N, W, Ty, S> as Create>::with_capacity(*nn, *e),
+                    _ => GraphMap::with_capacity_and_hasher(*nn, *e, S::default()),
                 };
-                (format!("init {} {} {}", kind, n, e), "ok".into())
+                (format!("init {} {} {}", kind, nn, e), "ok".into())
             }
-            Op::AddNode(n) => (format!("add_node {}", n), g.add_node(*n).to_string()),
-            Op::AddEdge(a, b, w) => (format!("add_edge {} {} {}", a, b, w), or_panic(catch(|| opt_u(g.add_edge(*a, *b, *w))))),
-            Op::RemoveNode(n) => (format!("remove_node {}", n), or_panic(catch(|| g.remove_node(*n).to_string()))),
-            Op::RemoveEdge(a, b) => (format!("remove_edge {} {}", a, b), or_panic(catch(|| opt_u(g.remove_edge(*a, *b))))),
+            Op::AddNode(a) => (format!("add_node {}", a), g.add_node(n(a)).dec().to_string()),
+            Op::AddEdge(a, b, w) => (
+                format!("add_edge {} {} {}", a, b, w),
+                or_panic(catch(|| opt_u(g.add_edge(n(a), n(b), W::enc(*w)).map(|x| x.dec())))),
+            ),
+            Op::RemoveNode(a) => (format!("remove_node {}", a), or_panic(catch(|| g.remove_node(n(a)).to_string()))),
+            Op::RemoveEdge(a, b) => (
+                format!("remove_edge {} {}", a, b),
+                or_panic(catch(|| opt_u(g.remove_edge(n(a), n(b)).map(|x| x.dec())))),
+            ),
             Op::SetWeight(a, b, w) => (
                 format!("set_weight {} {} {}", a, b, w),
-                opt_u(g.edge_weight_mut(*a, *b).map(|r| std::mem::replace(r, *w))),
+                opt_u(g.edge_weight_mut(n(a), n(b)).map(|r| std::mem::replace(r, W::enc(*w)).dec())),
             ),
             Op::IndexSet(a, b, w) => (
                 format!("index_set {} {} {}", a, b, w),
                 or_panic(catch(|| {
-                    let r = &mut g[(*a, *b)];
-                    std::mem::replace(r, *w).to_string()
+                    let r = &mut g[(n(a), n(b))];
+                    std::mem::replace(r, W::enc(*w)).dec().to_string()
                 })),
             ),
             Op::BumpAll(x) => {
                 let mut seen: Vec<Tri> = Vec::new();
                 for (a, b, w) in g.all_edges_mut() {
-                    seen.push((a, b, *w));
-                    *w += *x;
+                    seen.push((a.dec(), b.dec(), w.dec()));
+                    *w = W::enc(w.dec() + *x);
                 }
                 (format!("bump_all {}", x), tri(&seen))
             }
             Op::BumpRev(x) => {
                 let mut seen: Vec<Tri> = Vec::new();
                 for (a, b, w) in g.all_edges_mut().rev() {
-                    seen.push((a, b, *w));
-                    *w += *x;
+                    seen.push((a.dec(), b.dec(), w.dec()));
+                    *w = W::enc(w.dec() + *x);
                 }
                 (format!("bump_rev {}", x), tri(&seen))
             }
@@ -504,9 +692,9 @@ fn exec<Ty: EdgeType + Clone, S: BuildHasher + Default + Clone>(ops: &[Op], k: u
                 let r = catch(|| {
                     let elems = ws
                         .iter()
-                        .map(|w| Element::Node { weight: *w })
-                        .chain(es.iter().map(|(i, j, w)| Element::Edge { source: *i, target: *j, weight: *w }));
-                    GraphMap::<u32, u32, Ty, S>::from_elements(elems)
+                        .map(|w| Element::Node { weight: N::enc(*w) })
+                        .chain(es.iter().map(|(i, j, w)| Element::Edge { source: *i, target: *j, weight: W::enc(*w) }));
+                    GraphMap::<N, W, Ty, S>::from_elements(elems)
                 });
                 let ans = match r {
                     Some(h) => {
@@ -520,32 +708,48 @@ fn exec<Ty: EdgeType + Clone, S: BuildHasher + Default + Clone>(ops: &[Op], k: u
                     ans.into(),
                 )
             }
+            Op::FromElems(el) => {
+                let r = catch(|| {
+                    GraphMap::<N, W, Ty, S>::from_elements(el.iter().map(|e| match e {
+                        Elem::Node(w) => Element::Node { weight: N::enc(*w) },
+                        Elem::Edge(i, j, w) => Element::Edge { source: *i, target: *j, weight: W::enc(*w) },
+                    }))
+                });
+                let ans = match r {
+                    Some(h) => {
+                        g = h;
+                        "ok"
+                    }
+                    None => "panic",
+                };
+                (format!("from_elems {}", elems_str(el)), ans.into())
+            }
             Op::Clear => {
                 g.clear();
                 ("clear".into(), "ok".into())
             }
             Op::Extend(es) => {
-                let r = catch(|| g.extend(es.iter().cloned()));
+                let r = catch(|| g.extend(tri_n(es)));
                 (format!("extend {}", tri(es)), if r.is_some() { "ok".into() } else { "panic".into() })
             }
             Op::BuildAddEdge(a, b, w) => (
                 format!("build_add_edge {} {} {}", a, b, w),
-                or_panic(catch(|| match Build::add_edge(&mut g, *a, *b, *w) {
-                    Some((x, y)) => format!("some {}:{}", x, y),
+                or_panic(catch(|| match Build::add_edge(&mut g, n(a), n(b), W::enc(*w)) {
+                    Some((x, y)) => format!("some {}:{}", x.dec(), y.dec()),
                     None => "none".into(),
                 })),
             ),
             Op::BuildUpdateEdge(a, b, w) => (
                 format!("build_update_edge {} {} {}", a, b, w),
                 or_panic(catch(|| {
-                    let (x, y) = Build::update_edge(&mut g, *a, *b, *w);
-                    format!("{}:{}", x, y)
+                    let (x, y) = Build::update_edge(&mut g, n(a), n(b), W::enc(*w));
+                    format!("{}:{}", x.dec(), y.dec())
                 })),
             ),
             Op::RoundTrip => {
                 let r = catch(|| {
-                    let gr: Graph<u32, u32, Ty, u32> = g.clone().into_graph();
-                    GraphMap::<u32, u32, Ty, S>::from_graph(gr)
+                    let gr: Graph<N, W, Ty, u32> = g.clone().into_graph();
+                    GraphMap::<N, W, Ty, S>::from_graph(gr)
                 });
                 let ans = match r {
                     Some(h) => {
@@ -557,7 +761,7 @@ fn exec<Ty: EdgeType + Clone, S: BuildHasher + Default + Clone>(ops: &[Op], k: u
                 ("round_trip".into(), ans.into())
             }
             Op::FromGraph(ws, es) => {
-                let r = catch(|| GraphMap::<u32, u32, Ty, S>::from_graph(build_graph::<Ty>(ws, es)));
+                let r = catch(|| GraphMap::<N, W, Ty, S>::from_graph(build_graph::<N, W, Ty, u32>(ws, es)));
                 let ans = match r {
                     Some(h) => {
                         g = h;
@@ -571,7 +775,7 @@ fn exec<Ty: EdgeType + Clone, S: BuildHasher + Default + Clone>(ops: &[Op], k: u
                 )
             }
             Op::FromEdges(es) => {
-                let r = catch(|| GraphMap::<u32, u32, Ty, S>::from_edges(es.iter().cloned()));
+                let r = catch(|| GraphMap::<N, W, Ty, S>::from_edges(tri_n(es)));
                 let ans = match r {
                     Some(h) => {
                         g = h;
@@ -585,46 +789,50 @@ fn exec<Ty: EdgeType + Clone, S: BuildHasher + Default + Clone>(ops: &[Op], k: u
                 g = g.clone();
                 ("clone".into(), "ok".into())
             }
-            Op::ContainsNode(n) => (format!("contains_node {}", n), g.contains_node(*n).to_string()),
-            Op::ContainsEdge(a, b) => (format!("contains_edge {} {}", a, b), g.contains_edge(*a, *b).to_string()),
+            Op::ContainsNode(a) => (format!("contains_node {}", a), g.contains_node(n(a)).to_string()),
+            Op::ContainsEdge(a, b) => (format!("contains_edge {} {}", a, b), g.contains_edge(n(a), n(b)).to_string()),
             Op::IsAdjacent(a, b) => {
                 let m = g.adjacency_matrix();
-                (format!("is_adjacent {} {}", a, b), g.is_adjacent(&m, *a, *b).to_string())
+                (format!("is_adjacent {} {}", a, b), g.is_adjacent(&m, n(a), n(b)).to_string())
             }
-            Op::EdgeWeight(a, b) => (format!("edge_weight {} {}", a, b), opt_u(g.edge_weight(*a, *b).copied())),
-            Op::Index(a, b) => (format!("index {} {}", a, b), or_panic(catch(|| g[(*a, *b)].to_string()))),
-            Op::Neighbors(n) => (format!("neighbors {}", n), or_panic(catch(|| list(g.neighbors(*n))))),
-            Op::NeighborsDirected(n, o) => (
-                format!("neighbors_directed {} {}", n, dirname(*o)),
-                or_panic(catch(|| list(g.neighbors_directed(*n, direction(*o))))),
+            Op::EdgeWeight(a, b) => (format!("edge_weight {} {}", a, b), opt_u(g.edge_weight(n(a), n(b)).map(|w| w.dec()))),
+            Op::Index(a, b) => (format!("index {} {}", a, b), or_panic(catch(|| g[(n(a), n(b))].dec().to_string()))),
+            Op::Neighbors(a) => (format!("neighbors {}", a), or_panic(catch(|| list(g.neighbors(n(a)).map(|x| x.dec()))))),
+            Op::NeighborsDirected(a, o) => (
+                format!("neighbors_directed {} {}", a, dirname(*o)),
+                or_panic(catch(|| list(g.neighbors_directed(n(a), direction(*o)).map(|x| x.dec())))),
             ),
-            Op::Edges(n) => (
-                format!("edges {}", n),
-                or_panic(catch(|| list(g.edges(*n).map(|(a, b, w)| format!("{}:{}:{}", a, b, w))))),
+            Op::Edges(a) => (format!("edges {}", a), or_panic(catch(|| list(g.edges(n(a)).map(t3))))),
+            Op::EdgesDirected(a, o) => (
+                format!("edges_directed {} {}", a, dirname(*o)),
+                or_panic(catch(|| list(g.edges_directed(n(a), direction(*o)).map(t3)))),
             ),
-            Op::EdgesDirected(n, o) => (
-                format!("edges_directed {} {}", n, dirname(*o)),
-                or_panic(catch(|| list(g.edges_directed(*n, direction(*o)).map(|(a, b, w)| format!("{}:{}:{}", a, b, w))))),
-            ),
-            Op::Nodes => ("nodes".into(), list(g.nodes())),
-            Op::AllEdges => ("all_edges".into(), list(g.all_edges().map(|(a, b, w)| format!("{}:{}:{}", a, b, w)))),
+            Op::Nodes => ("nodes".into(), list(g.nodes().map(|x| x.dec()))),
+            Op::AllEdges => ("all_edges".into(), list(g.all_edges().map(t3))),
             Op::NodeCount => ("node_count".into(), g.node_count().to_string()),
             Op::EdgeCount => ("edge_count".into(), g.edge_count().to_string()),
-            Op::ToIndex(n) => (format!("to_index {}", n), or_panic(catch(|| NodeIndexable::to_index(&g, *n).to_string()))),
-            Op::FromIndex(i) => (format!("from_index {}", i), or_panic(catch(|| NodeIndexable::from_index(&g, *i).to_string()))),
+            Op::ToIndex(a) => (format!("to_index {}", a), or_panic(catch(|| NodeIndexable::to_index(&g, n(a)).to_string()))),
+            Op::FromIndex(i) => (
+                format!("from_index {}", i),
+                or_panic(catch(|| NodeIndexable::from_index(&g, *i).dec().to_string())),
+            ),
             Op::EdgeToIndex(a, b) => (
                 format!("edge_to_index {} {}", a, b),
-                or_panic(catch(|| EdgeIndexable::to_index(&g, (*a, *b)).to_string())),
+                or_panic(catch(|| EdgeIndexable::to_index(&g, (n(a), n(b))).to_string())),
             ),
             Op::EdgeFromIndex(i) => (
                 format!("edge_from_index {}", i),
                 or_panic(catch(|| {
                     let (a, b) = EdgeIndexable::from_index(&g, *i);
-                    format!("{}:{}", a, b)
+                    format!("{}:{}", a.dec(), b.dec())
                 })),
             ),
             Op::IntoGraph => ("into_graph".into(), into_graph_str(&g)),
             Op::Dump => ("dump".into(), dump(&g, k)),
+            Op::Laws(seed) => {
+                lines.extend(lawfn(&g, k, *seed));
+                continue;
+            }
         };
         lines.push((req, ans));
     }
@@ -636,6 +844,7 @@ fn exec<Ty: EdgeType + Clone, S: BuildHasher + Default + Clone>(ops: &[Op], k: u
 pub const EXHAUSTIVE: u64 = 2 * 12 * 12 * 12 * 12;
 
 fn exhaustive_history(mut code: u64) -> Vec<Op> {
+    let seed = code;
     let mut ops = vec![Op::Init(0, 0, 0)];
     for step in 0..4u32 {
         let c = (code % 12) as u32;
@@ -649,41 +858,71 @@ fn exhaustive_history(mut code: u64) -> Vec<Op> {
         });
         ops.push(Op::Dump);
     }
+    ops.push(Op::Laws(seed));
     ops.push(Op::IntoGraph);
     ops.push(Op::RoundTrip);
     ops.push(Op::Dump);
     ops
 }
 
-fn run_ty<Ty: EdgeType + Clone>(ctx: &mut Ctx, rng: &mut Rng, case: u64, directed: bool) {
+fn no_laws<N, W, Ty, S: BuildHasher>(_: &GraphMap<N, W, Ty, S>, _: u32, _: u64) -> Vec<(String, String)> {
+    Vec::new()
+}
+
+fn run_ty<Ty: laws::Tyy>(ctx: &mut Ctx, rng: &mut Rng, case: u64, directed: bool) {
+    use std::collections::hash_map::{DefaultHasher, RandomState};
+    use std::hash::BuildHasherDefault;
     let exhaustive = ctx.tier_thorough && case < EXHAUSTIVE;
-    let k: u32 = if exhaustive { 2 } else { *rng.pick(&[2, 3, 4, 5, 5, 6, 6, 7, 7, 7]) };
+    // K = 1: a single node value (only self-loops); 5 % of the cases leave the dense range: 12 or 20 node values
+    // (sparser graphs, longer adjacency vectors and maps, positions beyond the first few)
+    let k: u32 = if exhaustive {
+        2
+    } else if rng.chance(5) {
+        *rng.pick(&[12, 20])
+    } else {
+        *rng.pick(&[1, 2, 2, 3, 4, 5, 5, 6, 6, 7, 7, 7])
+    };
     let ops = if exhaustive { exhaustive_history(case / 2) } else { gen_history(rng, directed, k, ctx.tier_thorough) };
     let header = format!("case {} {} k={}", case, if directed { "dir" } else { "undir" }, k);
-    let base = exec::<Ty, std::collections::hash_map::RandomState>(&ops, k);
-    let fx = exec::<Ty, fxhash::FxBuildHasher>(&ops, k);
-    let ah = exec::<Ty, ahash::RandomState>(&ops, k);
-    let emit = |ctx: &mut Ctx, lines: &[(String, String)], verdict: &str| {
+    // the run the driver sees: u32 nodes, u32 weights, RandomState, with the `law` lines
+    let base = exec::<u32, u32, Ty, RandomState>(&ops, k, &laws::laws::<Ty, RandomState>);
+    let plain: Vec<(String, String)> = base.iter().filter(|l| !l.0.starts_with("law ")).cloned().collect();
+    // the other hashers and ONE more instantiation of the node / weight types (rotating with the case number)
+    let mut others: Vec<(&str, Vec<(String, String)>)> = vec![
+        ("fxhash", exec::<u32, u32, Ty, fxhash::FxBuildHasher>(&ops, k, &no_laws)),
+        ("ahash", exec::<u32, u32, Ty, ahash::RandomState>(&ops, k, &no_laws)),
+    ];
+    others.push(match case % 3 {
+        0 => ("i64-f32-ahash", exec::<i64, f32, Ty, ahash::RandomState>(&ops, k, &no_laws)),
+        1 => ("Ptr-Box-fxhash", exec::<Ptr<'static, u32>, Box<u32>, Ty, fxhash::FxBuildHasher>(&ops, k, &no_laws)),
+        _ => ("tuple-u64-siphash", exec::<(u8, i8), u64, Ty, BuildHasherDefault<DefaultHasher>>(&ops, k, &no_laws)),
+    });
+    let emit = |ctx: &mut Ctx, lines: &[(String, String)], hashers: &str, instances: &str| {
         ctx.raw(&header);
         for (r, a) in lines {
             ctx.line(r, a);
         }
-        ctx.line("hashers", verdict);
+        ctx.line("hashers", hashers);
+        ctx.line("instances", instances);
     };
-    let diff = |other: &[(String, String)]| -> Option<usize> { (0..base.len()).find(|i| base[*i] != other[*i]) };
-    match (diff(&fx), diff(&ah)) {
-        (None, None) => emit(ctx, &base, "same"),
-        (d1, d2) => {
-            // observations depend on the hasher: report, and let the driver judge the deviating run too
-            let which = if d1.is_some() { "fxhash" } else { "ahash" };
-            let at = d1.or(d2).unwrap();
-            emit(ctx, &base, &format!("differ {} at line {} [{}]", which, at, base[at].0));
-            if d1.is_some() {
-                emit(ctx, &fx, "same");
+    let diff = |other: &[(String, String)]| -> Option<usize> {
+        (0..plain.len().max(other.len())).find(|i| plain.get(*i) != other.get(*i))
+    };
+    let word = |at: usize| plain.get(at).map(|l| l.0.clone()).unwrap_or_else(|| "end".into());
+    let bad: Vec<(usize, usize)> = others.iter().enumerate().filter_map(|(i, o)| diff(&o.1).map(|at| (i, at))).collect();
+    if bad.is_empty() {
+        emit(ctx, &base, "same", "same");
+    } else {
+        // observations depend on the hasher / the instantiation: report, and let the driver judge the deviating run too
+        let verdict = |want_inst: bool| -> String {
+            match bad.iter().find(|(i, _)| (*i == 2) == want_inst) {
+                Some((i, at)) => format!("differ {} at line {} [{}]", others[*i].0, at, word(*at)),
+                None => "same".into(),
             }
-            if d2.is_some() {
-                emit(ctx, &ah, "same");
-            }
+        };
+        emit(ctx, &base, &verdict(false), &verdict(true));
+        for (i, _) in &bad {
+            emit(ctx, &others[*i].1, "same", "same");
         }
     }
 }
